@@ -921,3 +921,34 @@ Theorem vtt_validation_transparent : forall sh crlf cues, forallb vtt_cue_dom cu
 Proof.
   intros sh crlf cues Hd Hs. rewrite !vtt_doc_exact; try assumption; try reflexivity; intros; try assumption; discriminate.
 Qed.
+
+(* wave 6: WebVTT documents with ANY header block (header text after WEBVTT, header lines, NOTE / STYLE / REGION blocks)
+   and ANY trailing block after the last cue (a closing NOTE, stray text): lines without an arrow never reach a caption,
+   wherever they stand.  (Blocks BETWEEN cues and cue identifiers are the vc_pre lines of vtt_doc_exact.) *)
+Theorem vtt_doc_exact_framed : forall strict sh crlf hdr cues trailer,
+  forallb (fun l => no_linebreak l && no_arrow l) hdr = true ->
+  forallb (fun l => no_linebreak l && no_arrow l) trailer = true ->
+  forallb vtt_cue_dom cues = true ->
+  (strict = true -> vtt_sorted_from sh 0 cues = true) ->
+  vtt_read strict sh (render_lines crlf hdr ++ flat_map (vtt_render_cue crlf) cues ++ render_lines crlf trailer)
+  = read_result (vtt_expected_caps sh cues).
+Proof.
+  intros strict sh crlf hdr cues trailer Hh Ht Hd Hs. unfold vtt_read.
+  assert (DOC : render_lines crlf hdr ++ flat_map (vtt_render_cue crlf) cues ++ render_lines crlf trailer
+                = flat_map (fun l => l ++ nl_of crlf) (hdr ++ flat_map vtt_cue_lines cues ++ trailer)).
+  { rewrite !flat_map_app, vtt_render_cues_lines. unfold render_lines. rewrite !nl_is_nl_of. reflexivity. }
+  rewrite DOC. clear DOC.
+  assert (NLB : forall ls, forallb (fun l => no_linebreak l && no_arrow l) ls = true -> forallb no_lb ls = true).
+  { intros ls H. apply forallb_forall. intros l Hl. rewrite forallb_forall in H. specialize (H l Hl).
+    apply andb_true_iff in H. destruct H as [H _]. rewrite <- no_linebreak_no_lb. exact H. }
+  rewrite splitlines_lines.
+  2:{ rewrite !forallb_app, (NLB hdr Hh), (NLB trailer Ht), andb_true_r. cbn [andb].
+      apply forallb_forall. intros l Hl. apply in_flat_map in Hl. destruct Hl as [c [Hc Hin]].
+      pose proof (vtt_cue_lines_no_lb c) as N. rewrite forallb_forall in Hd. specialize (N (Hd c Hc)).
+      rewrite forallb_forall in N. apply N. exact Hin. }
+  rewrite vtt_loop_app, (vtt_loop_idle strict (sh * 1000) hdr [] 0 0 Hh). cbn [bind].
+  rewrite vtt_loop_app.
+  destruct (vtt_loop_cues strict sh cues [] 0 0 Hd Hs) as [s1 [e1 E]]. rewrite E. cbn [bind app].
+  rewrite (vtt_loop_idle strict (sh * 1000) trailer _ s1 e1 Ht). cbn [bind vs_nodes vs_caps].
+  unfold read_result, no_captions_if_empty. destruct (vtt_expected_caps sh cues); reflexivity.
+Qed.
